@@ -68,7 +68,7 @@ def observe(binp, cases):
             classes.append(5)
         byid[r["id"]] = {"model": mv, "d4": {1: True, 0: False}.get(x[1]), "d4f": {1: True, 0: False}.get(x[2]),
                          "classes": classes, "in_fragment": len(x) > 4 and x[4] == 1,
-                         "termination_proved": len(x) > 5 and x[5] == 1}
+                         "termination_proved": len(x) > 5 and x[5] == 1, "located_class": len(x) > 6 and x[6] == 1}
     joined = []
     for c, r in zip(cases, recs):
         j = {"case": c, "go": S.go_view(r["go"]), "go_raw": r["go"], "oneshot": r["oneshot"], "skip": r.get("skip")}
